@@ -7,6 +7,16 @@ import (
 	"github.com/rpcpool/yellowstone-faithful/third_party/solana_proto/confirmed_block"
 )
 
+// transactionFailed reports whether the status metadata records that the transaction failed.
+func transactionFailed(meta any) bool {
+	if m, ok := meta.(*confirmed_block.TransactionStatusMeta); ok {
+		// getErr hands back a nil map[string]any for protobuf metadata without an error;
+		// wrapped in an interface that value is not equal to nil.
+		return m.GetErr() != nil
+	}
+	return getErr(meta) != nil
+}
+
 func getErr(meta any) any {
 	switch metaValue := meta.(type) {
 	case *confirmed_block.TransactionStatusMeta:
